@@ -36,6 +36,12 @@ def gen_case(rng: random.Random, small: bool = False) -> dict:
             flip = rng.choice([0.0, 0.05, 0.2, 0.5])
             rows.append([b ^ (1 if rng.random() < flip else 0) for b in p])
         files.append(rows)
+    if not small and rng.random() < 0.12:
+        # a tight family of exactly 255 (or 254 / 256) members in one file: its count sits at the top of a counter width when
+        # the cluster is written to a round file and re-imported
+        k = rng.choice([254, 255, 255, 255, 256])
+        fam = list(rng.choice(protos))
+        files[rng.randrange(n_files)] = [list(fam) for _ in range(k)] + [[b ^ (1 if rng.random() < 0.5 else 0) for b in fam] for _ in range(2)]
     dup = None
     if n_files >= 2 and rng.random() < 0.15:
         # the same file listed twice (same path): its rows are clustered twice, under two index ranges
@@ -111,13 +117,19 @@ def input_names(case: dict) -> list[str]:
     return sorted(names)
 
 
-def write_inputs(case: dict, d: Path) -> list[Path]:
+def write_inputs(case: dict, d: Path, api_order: bool = False) -> list[Path]:
+    """`api_order`: the caller passes the list to the API itself (not through a command that sorts a directory), so the
+    list order need not be the lexicographic order of the names: every other case gets names in reverse order"""
     paths = []
     names = input_names(case)
+    if api_order and (sum(len(f) for f in case["files"]) % 2 == 1):
+        names = names[::-1]
     for i, rows in enumerate(case["files"]):
         X = np.asarray(rows, dtype=np.uint8).reshape(len(rows), case["F"])
         if case["packed"]:
             X = np.packbits(X, axis=1)
+        elif case.get("unpacked_dtype"):
+            X = X.astype(case["unpacked_dtype"])
         if case.get("dup") and i == case["dup"][1]:
             paths.append(paths[case["dup"][0]])
             continue
@@ -261,11 +273,19 @@ def suite_mr(tier: str, seed: int, mult: int, focus: str = "C05") -> SuiteResult
             if res.failures:
                 break
             case = gen_case(rng)
+            if k < 3 and focus == "C05":
+                # forced: a family of exactly 255 / 65535-free sizes (254, 255, 256) that stays a cluster of its own through
+                # every round (disjoint from the other file), so its summary is re-imported with the count at the top of uint8
+                F_ = case["F"]
+                a_row = [1] * (F_ // 2) + [0] * (F_ - F_ // 2)
+                b_row = [0] * (F_ // 2) + [1] * (F_ - F_ // 2)
+                case.update(files=[[list(a_row) for _ in range((254, 255, 256)[k])], [list(b_row) for _ in range(3)]], dup=None,
+                            mode="none", split=False, thr=1.0, chg=0.0, init="diameter", mid="diameter", final=None, cent=True)
             N = sum(len(f) for f in case["files"])
             d.cmd(exp_table_line(N + 2))
             indir = work / f"in{k}"
             indir.mkdir()
-            inputs = write_inputs(case, indir)
+            inputs = write_inputs(case, indir, api_order=True)
             orders = {}
 
             def chooser(r, n, orders=orders):
